@@ -28,6 +28,11 @@ type relocRec struct {
 	Out  []int  `json:"out"`  // relocated prefix
 	Tail []int  `json:"tail"` // appended jump back
 	Err  string `json:"err"`
+	// tight placeholders (a body of Cap bytes incl. its int3 padding, directly followed by the next function) and far
+	// origins (more than 2 GiB away from the placeholder: the jump back is the absolute form)
+	Beyond bool  `json:"beyond"` // a byte behind the placeholder (the neighbour function) changed
+	Far    bool  `json:"far"`
+	OLanes []int `json:"olanes"` // the origin address in 16-bit lanes, low first (TLC integers are 32 bit)
 }
 
 func vInts(b []byte) []int {
@@ -130,7 +135,7 @@ func (a *arena) relocate(name string, code []byte, have int, far bool) relocRec 
 	}
 	a.trpOff = t + trampSlot + 32
 	origin, tramp := a.orgB+uintptr(o), a.trpB+uintptr(t)
-	rec := relocRec{Name: name, D: int(origin) - int(tramp), Fn: vInts(code[:have]), Size: size, Out: []int{}, Tail: []int{}}
+	rec := relocRec{Name: name, D: int(origin) - int(tramp), Fn: vInts(code[:have]), Size: size, Out: []int{}, Tail: []int{}, OLanes: []int{0, 0, 0, 0}}
 	func() {
 		defer func() {
 			if e := recover(); e != nil {
@@ -162,6 +167,139 @@ func (a *arena) relocate(name string, code []byte, have int, far bool) relocRec 
 		rec.Err = rec.Err[:90]
 	}
 	return rec
+}
+
+// tight: placeholders as the linker lays small functions out - a body, a few int3 bytes up to the alignment, and the NEXT
+// FUNCTION right behind; goom may use body + padding and nothing else. far: the origin is copied into a mapping more
+// than 2 GiB away, so the jump back is the 12-byte absolute form (goom's capacity check must account for it).
+type tightArena struct {
+	near, far []byte
+	nearOff   int
+	farOff    int
+}
+
+var sentinel = []byte{0x49, 0x3b, 0x66, 0x10, 0x76, 0x10, 0x55, 0x48, 0x89, 0xe5, 0x48, 0x83, 0xec, 0x08, 0x90, 0x90,
+	0x90, 0x90, 0x48, 0x83, 0xc4, 0x08, 0x5d, 0xc3, 0xeb, 0xe6, 0xcc, 0xcc, 0xcc, 0xcc, 0xcc, 0xcc}
+
+func newTightArena(base uintptr) *tightArena {
+	mm := func(addr uintptr, size int, flags uintptr) []byte {
+		p, _, e := syscall.Syscall6(syscall.SYS_MMAP, addr, uintptr(size), syscall.PROT_READ|syscall.PROT_WRITE|syscall.PROT_EXEC,
+			syscall.MAP_PRIVATE|syscall.MAP_ANON|flags, ^uintptr(0), 0)
+		if e != 0 {
+			return nil
+		}
+		return unsafe.Slice((*byte)(unsafe.Pointer(p)), size)
+	}
+	t := &tightArena{}
+	t.near = mm(base, 16<<20, 0)
+	const fixedNoReplace = 0x100000
+	for k := uintptr(2); k < 40 && t.far == nil; k++ {
+		if m := mm((uintptr(unsafe.Pointer(&t.near[0]))+k<<32)&^0xFFFF, 32<<20, fixedNoReplace); m != nil &&
+			uintptr(unsafe.Pointer(&m[0]))-uintptr(unsafe.Pointer(&t.near[0])) > 1<<32 {
+			t.far = m
+		}
+	}
+	return t
+}
+
+func (t *tightArena) relocate(name string, code []byte, have, body, pad int, far bool) (rec relocRec, ok bool) {
+	size := len(code)
+	if have > size {
+		have = size
+	}
+	org := t.near
+	oo := &t.nearOff
+	if far {
+		if t.far == nil {
+			return rec, false
+		}
+		org, oo = t.far, &t.farOff
+	}
+	slot := body + pad + len(sentinel) + 16
+	pos := (t.nearOff + 15) &^ 15
+	if far {
+		if pos+slot+128 > len(t.near) || *oo+size+64 > len(org) {
+			return rec, false
+		}
+	} else if pos+slot+size+256 > len(t.near) {
+		return rec, false
+	}
+	lo, hi := pos&^4095, (pos+slot+size+256+4095)&^4095
+	if hi > len(t.near) {
+		hi = len(t.near)
+	}
+	syscall.Mprotect(t.near[lo:hi], syscall.PROT_READ|syscall.PROT_WRITE|syscall.PROT_EXEC)
+	// placeholder: body of NOPs, int3 padding, then the next function
+	for i := 0; i < body; i++ {
+		t.near[pos+i] = 0x90
+	}
+	for i := 0; i < pad; i++ {
+		t.near[pos+body+i] = 0xCC
+	}
+	copy(t.near[pos+body+pad:], sentinel)
+	for i := 0; i < 16; i++ {
+		t.near[pos+body+pad+len(sentinel)+i] = 0xCC
+	}
+	tramp := uintptr(unsafe.Pointer(&t.near[pos]))
+	// origin copy
+	var o int
+	if far {
+		o = (*oo + 15) &^ 15
+		flo, fhi := o&^4095, (o+size+64+4095)&^4095
+		if fhi > len(org) {
+			fhi = len(org)
+		}
+		syscall.Mprotect(org[flo:fhi], syscall.PROT_READ|syscall.PROT_WRITE|syscall.PROT_EXEC)
+		*oo = o + size + 32
+		t.nearOff = pos + slot
+	} else {
+		o = (pos + slot + 15) &^ 15
+		t.nearOff = o + size + 32
+	}
+	copy(org[o:], code)
+	for i := 0; i < 32; i++ {
+		org[o+size+i] = 0xCC
+	}
+	origin := uintptr(unsafe.Pointer(&org[o]))
+	rec = relocRec{Name: name, Fn: vInts(code[:have]), Size: size, Out: []int{}, Tail: []int{}, Far: far,
+		OLanes: []int{int(origin & 0xFFFF), int(origin >> 16 & 0xFFFF), int(origin >> 32 & 0xFFFF), int(origin >> 48 & 0xFFFF)}}
+	if !far {
+		rec.D = int(origin) - int(tramp)
+	}
+	func() {
+		defer func() {
+			if e := recover(); e != nil {
+				rec.Err = "panic:" + fmt.Sprint(e)
+			}
+		}()
+		if _, err := fixOriginFuncToTrampoline(origin, tramp, 13); err != nil {
+			rec.Err = "err:" + err.Error()
+		}
+	}()
+	out := make([]byte, 96)
+	copy(out, t.near[pos:])
+	// the judge looks at the placeholder's own bytes only: what lies behind is reported separately
+	for i := body + pad; i < 96; i++ {
+		out[i] = 0x90
+	}
+	rec.Out = vInts(out)
+	for i := range sentinel {
+		if t.near[pos+body+pad+i] != sentinel[i] {
+			rec.Beyond = true
+		}
+	}
+	if rec.Err != "" {
+		for i := 0; i < body; i++ {
+			if t.near[pos+i] != 0x90 {
+				rec.Err = "DIRTY-REFUSAL:" + rec.Err
+				break
+			}
+		}
+	}
+	if len(rec.Err) > 90 {
+		rec.Err = rec.Err[:90]
+	}
+	return rec, true
 }
 
 // TestVerifRelocSweep: every function of VERIF_BIN (default this binary; bytes read from the file,
@@ -208,6 +346,8 @@ func TestVerifRelocSweep(t *testing.T) {
 	}
 	cnt := 0
 	ar := newArena()
+	ta := newTightArena(0x60000000)
+	shapes := [][2]int{{27, 5}, {29, 3}, {37, 11}, {45, 3}, {61, 3}}
 	for _, i := range idx {
 		fn := tab.Funcs[i]
 		lo, hi := int(fn.Entry-text.Addr), int(fn.End-text.Addr)
@@ -227,6 +367,13 @@ func TestVerifRelocSweep(t *testing.T) {
 			_ = d
 			enc.Encode(ar.relocate(fn.Name, code[:end], have, false))
 			cnt++
+		}
+		if cnt%3 == 0 {
+			sh := shapes[cnt/3%len(shapes)]
+			if rec, ok := ta.relocate(fn.Name, code[:end], have, sh[0], sh[1], cnt%2 == 0); ok {
+				enc.Encode(rec)
+				cnt++
+			}
 		}
 	}
 	t.Logf("records=%d", cnt)
